@@ -63,6 +63,7 @@ Definition write_at (st : kv) (h : handle) (d : list N) (off : Z) : kv * handle 
     let '(st1, h1, off1) :=
       if has_flag (h_flag h) F_APPEND then cur_size st h else (st, h, off) in
     if (off1 <? 0)%Z then (st1, h1, 0%Z, Some (PathErr (h_path h) EOTHER))
+    else if match d with [] => true | _ => false end then (st1, h1, 0%Z, None)
     else
       let '(st2, h2, sz) := cur_size st1 h1 in
       let '(st3, h3, ok) := f_data st2 h2 in
@@ -151,10 +152,18 @@ Definition hstep (st : kv) (i : nat) (o : hop) : kv * hres :=
     | HReadAt len off =>
       let '(st1, h1, d, e) := read_at st h len off in (put_handle st1 i h1, HRBytes d e)
     | HWrite d =>
-      let '(st1, h1, n, e) := write_at st h d (h_off h) in
-      (put_handle st1 i (with_off h1 (h_off h1 + n)%Z), HRN n e)
+      if h_closed h then (st, HRN 0%Z (Some (closed_err h)))
+      else
+        (* an appending, non-empty write first moves the offset to the end *)
+        let '(st0, h0) :=
+          if has_flag (h_flag h) F_APPEND && negb (match d with [] => true | _ => false end)
+          then (let '(s, h', z) := cur_size st h in (s, with_off h' z)) else (st, h) in
+        let '(st1, h1, n, e) := write_at st0 h0 d (h_off h0) in
+        (put_handle st1 i (with_off h1 (h_off h1 + n)%Z), HRN n e)
     | HWriteAt d off =>
-      let '(st1, h1, n, e) := write_at st h d off in (put_handle st1 i h1, HRN n e)
+      if h_closed h then (st, HRN 0%Z (Some (closed_err h)))
+      else if has_flag (h_flag h) F_APPEND then (st, HRN 0%Z (Some (PathErr (h_path h) EOTHER)))
+      else let '(st1, h1, n, e) := write_at st h d off in (put_handle st1 i h1, HRN n e)
     | HSeek off wh =>
       if h_closed h then (st, HRN 0%Z (Some (closed_err h)))
       else
